@@ -277,7 +277,9 @@ class LinearConstraints:
         self._a_eq = self.a_eq[~undef_eq, :]
         self._b_eq = self.b_eq[~undef_eq]
         self.pcs = [
-            PreparedConstraint(c, np.ones(n)) for c in constraints if c.A.size
+            PreparedConstraint(c, np.ones(n))
+            for c in constraints
+            if c.A.shape[0]
         ]
 
     @property
